@@ -2,7 +2,7 @@
   C09 — local-Clifford equivalence of graph states is decided correctly, constructively.
 
   Property theorems only (helper lemmas live in Proofs/GraphOps.lean, Proofs/LC.lean, Proofs/LCSeq{Step,Loop,Term}.lean and
-  Proofs/LC{Comp,Block,Repair,Assemble}.lean, Proofs/LCTotal{Ech,Cols,Inv,Basis,R}.lean, Proofs/LCTotal.lean, Proofs/LCGates{,2}.lean, Proofs/LCTableaux{,2}.lean).
+  Proofs/LC{Comp,Block,Repair,Assemble}.lean, Proofs/LCTotal{Ech,Cols,Inv,Basis,R}.lean, Proofs/LCTotal.lean, Proofs/LCGates{,2}.lean, Proofs/LCPhase.lean, Proofs/LCTableaux{,2,3}.lean).
 
   What is proved here for every size n and every input (Tier A of DESIGN §4):
     1. local complementation toggles exactly the pairs of distinct neighbours and is an involution; both implementations
@@ -45,7 +45,9 @@
        by `local_clifford_ops` run on `|A⟩`, `±K_k(B)` lies in the resulting stabilizer group (the symplectic product of
        `K_k(B)` with the image of `K_i(A)` is equation `(i, k)`; maximality of the group), `groupSign` finds every sign, the `Z`
        corrections fix them, and the validation of `lc_check` passes: `lc_check` is total, agrees with `is_lc_equivalent`, and
-       its gates map `|A⟩` exactly onto `|B⟩` with or without `validate` (`lc_check_total_and_right`).
+       its gates map `|A⟩` exactly onto `|B⟩` with or without `validate` (`lc_check_total_and_right`); `_phase_correction` and the
+       validation are also modelled function by function (`lcCheckF`, what the driver runs) and proved equal to the
+       specification-level model (`lc_check_function_level_agrees`, Proofs/LCPhase.lean).
    11. Tableau inputs (section 8; Proofs/LCTableaux.lean): `lc_check` on two stabilizer states, modelled function by function
        (`lcCheckStates`), returns a total gate list `gates1 + gate_list + inversed_gates2` that maps the first state exactly onto
        the second (`lc_check_on_tableaux_sound`) — composition of C08's `state_to_graph` soundness with item 10 — and is total on
@@ -57,10 +59,13 @@ import GraphiqModel.Proofs.LC
 import GraphiqModel.Proofs.LCSeqTerm
 import GraphiqModel.Proofs.LCRepair
 import GraphiqModel.Proofs.LCAssemble
+import GraphiqModel.Proofs.LCConnectedAgree
 import GraphiqModel.Proofs.LCTotalR
 import GraphiqModel.Proofs.LCGates2
 import GraphiqModel.Proofs.LCTableaux
 import GraphiqModel.Proofs.LCTableaux2
+import GraphiqModel.Proofs.LCPhase
+import GraphiqModel.Proofs.LCTableaux3
 namespace Graphiq.C09
 open Graphiq Graphiq.LC Graphiq.PRow Graphiq.Tab
 
@@ -623,6 +628,17 @@ example : Connected 3 K3.f := by
   · rw [e]; exact Reach.refl _
   · exact Reach.single hi hj (by simp only [K3, BMat.ofAdj]; exact decide_eq_true e)
 
+/-- **on connected graphs the repair changes nothing** (the claim "bit-for-bit the old results" of the patch description, as a
+    theorem): for two connected simple graphs of the same size `n ≥ 1` the repaired `is_lc_equivalent` returns exactly what the
+    whole-graph algorithm returns — the same `Q`, or the same `no` — in every mode and for every value of the draws (a connected
+    graph has the single component `[0, …, n-1]`, the induced pair is the pair itself, and the whole-graph algorithm reads its
+    arguments only below their size) -/
+theorem repaired_agrees_with_the_whole_graph_algorithm_on_connected (a b : BMat) (mode : Mode) (draws : List (List Bool))
+    (hn : 0 < a.r) (hab : a.r = b.r) (ha : Simple a.r a.f) (hb : Simple b.r b.f) (hca : Connected a.r a.f)
+    (hcb : Connected a.r b.f) (out : EqOut) (e : isLcEquivalent a b mode (draws.headD []) = .ok out) :
+    ∃ outR, isLcEquivalentR a b mode draws = .ok outR ∧ outR.sol = out.sol ∧ outR.parts = [out] :=
+  isLcEquivalentR_connected a b mode draws hn hab ha (by rw [hab]; exact hb) hca hcb out e
+
 /-- **the remaining hypothesis, stated precisely** (Van den Nest–Dehaene–De Moor, Phys. Rev. A 70, 034302, Section IV: "if the
     solution space has dimension > 4 it suffices to test the sums of two basis vectors"): for *connected* graphs, a `no` of the
     pair-sum search of the unchanged algorithm is right.  Not proved here.  It is false without `Connected`
@@ -772,7 +788,7 @@ theorem lc_check_2K2_repaired : checkAnswerR twoK2 twoK2 = some (true, [("H", 0)
 /-! ## 6. Totality: `is_lc_equivalent` returns (no internal assertion can fire)
 
   Every decision theorem above has a hypothesis `… = .ok out` ("the function returned").  It is discharged here for every
-  input of the property's quantifier (helper lemmas: Proofs/LCTotal{Ech,Cols,Inv,Basis,R}.lean, Proofs/LCTotal.lean, Proofs/LCGates{,2}.lean, Proofs/LCTableaux{,2}.lean). -/
+  input of the property's quantifier (helper lemmas: Proofs/LCTotal{Ech,Cols,Inv,Basis,R}.lean, Proofs/LCTotal.lean, Proofs/LCGates{,2}.lean, Proofs/LCPhase.lean, Proofs/LCTableaux{,2,3}.lean). -/
 
 /-- **the whole-graph algorithm (`is_lc_equivalent` before the repair of D14, `_is_lc_equivalent_component` after it) is
     total**: for two adjacency matrices of the same size `n ≥ 1`, in deterministic or random mode and for every value of the
@@ -885,6 +901,34 @@ theorem lc_check_total_and_right_unrepaired (a b : BMat) (validate : Bool) (hn :
         ∀ k, k < a.r → InSpan t.n t.n t.stab (graphGen b.f k) := by
   obtain ⟨zs, _, hc⟩ := lcCheck_of_yes a b out s hn hab ha hb e hs
   exact ⟨zs, hc validate, lc_check_gates_map_the_state a b _ ha (hc true)⟩
+
+/-! ### 7b. `_phase_correction` and the validation, function by function
+
+  `converterGateListR` / `lcCheckR` (the models the theorems above speak about) compute the phase correction at specification level
+  and validate through `isGraphState`.  `converterGateListF` / `lcCheckF` mirror the Python literally — `_phase_correction(tab1, tab2,
+  gate_list)` is the C08 model `S2G.phaseCorrection` (canonical forms of both graph tableaux, `run_circuit` on the canonical form of
+  the first, exact inverse of the X part of the result, `z_ops = x_inv @ phase_diff`), the validation is the comparison of canonical
+  forms — and are the functions the driver runs against the repaired implementation.  They return the same results. -/
+
+/-- **`_phase_correction` computes the specification-level correction**: on the gates of any valid `Q` the function-by-function
+    model returns exactly the `Z` gates on the qubits whose generator `K_q(B)` carries the sign `−` in the transformed state (the
+    canonical form of the transformed state has the identity as X part, its row `q` is `±K_q(B)`, the exact inverse of the identity is
+    the identity, and `phase_diff` is the list of those signs) -/
+theorem phase_correction_is_the_sign_fix (n : Nat) (A B : Adj) (hA : Simple n A) (hB : Simple n B) (q : List Bool)
+    (hq : ∀ j k, j < n → k < n → equation n A B (vget q) j k = false) (hv : isValidClifford n q = true) :
+    ∃ t1, runGates (graphTab n A) (qGates n q) = .ok t1 ∧
+      S2G.phaseCorrection (graphSTab n A) (graphSTab n B) ((qGates n q).map toGate) =
+        .ok (((List.range n).filter fun k => groupSign t1 (graphGen B k) == some true).map Gate.Z) ∧
+      phaseCorrection t1 B = some (((List.range n).filter fun k => groupSign t1 (graphGen B k) == some true).map fun k => ("Z", k)) := by
+  obtain ⟨t1, e1, h⟩ := phaseCorrection_of_valid n A B hA hB q hq hv
+  exact ⟨t1, e1, h, phaseCorrection_spec_of_valid n A B hA hB q hq hv t1 e1⟩
+
+/-- **the function-by-function `lc_check` on two graphs returns exactly what the specification-level model returns**, with or
+    without validation — so every theorem of section 7 (`lc_check_total_and_right` …) is a theorem about the function the driver
+    compares with the implementation -/
+theorem lc_check_function_level_agrees (a b : BMat) (validate : Bool) (hab : a.r = b.r) (ha : Simple a.r a.f)
+    (hb : Simple b.r b.f) : lcCheckF a b validate = lcCheckR a b validate :=
+  lcCheckF_eq a b validate hab ha hb
 
 /-! ## 8. Tableau inputs: `lc_check` on two stabilizer states
 
